@@ -12,6 +12,7 @@ import (
 	"sync/atomic"
 
 	"github.com/coregx/coregex"
+	"github.com/coregx/coregex/meta"
 	"github.com/coregx/coregex/nfa"
 
 	"verif/gen"
@@ -19,7 +20,7 @@ import (
 )
 
 func init() {
-	register(&Prop{ID: "C06", N: 6000, Quick: 260, Build: "race", Workers: 8, StallSec: 600,
+	register(&Prop{ID: "C06", N: 6000, Quick: 120, QuickFixed: uint64(5 + len(gen.Exemplars)), Build: "race", Workers: 8, StallSec: 600,
 		Assume: []string{"the Go race detector (-race) observes unsynchronised conflicting accesses of the executions driven here; reports are read from its log per case, deduplicated by the pair of innermost coregex functions and the API entry points", "the sequential result of each (API, haystack) on the same value is the specification of the concurrent call"},
 		Rule:   "case = one pattern G(D,i) (exemplars of every strategy and mutants) compiled once; 12 (API, haystack) calls are first executed alone (sequential specification), then G in {2, 8, 32} goroutines released by a barrier execute seeded shuffles of those calls on the ONE shared Regex (same and different haystacks, ASCII and non-ASCII, runtime.GC() interleaved); every concurrent result must equal its sequential result and the race log must stay empty; one evaluation = one concurrent call; distinct_nontrivial = distinct (pattern, API pair) combinations that were in flight at the same time on one value (in-flight counter)",
 		Pre: func(p *Prop) {
@@ -33,6 +34,8 @@ func init() {
 }
 
 // knownC06: no race on the current tree is excused (the shared-PikeVM races were repaired); kept as the single place where a call-site-identified finding would be recognised.
+var c06OversizePatterns = []string{`^(?:\pL+ )+\d`, `^(\pL|\d)+$`, `^(.+)-(\pL+)$`, `(\pL+)\s(\pL+)`, `((\pL{2})+)\d`}
+
 func knownC06(f *Failure) string { return "" }
 
 type c06call struct {
@@ -51,12 +54,42 @@ func raceLogPath() string {
 
 func runC06(w *W, i uint64) {
 	c := gen.D(i)
+	forceOversize := false
+	if i < uint64(len(c06OversizePatterns)) {
+		// fixed part of every run: backtracker-strategy patterns with large UTF-8 automata, whose capacity limit
+		// (32M / states) is a few KB, searched on haystacks just above that limit
+		c.Pattern = c06OversizePatterns[i]
+		re1, _ := gen.Valid(c.Pattern)
+		c.Haystacks = gen.Haystacks(gen.Rng("C06o", i), re1, gen.ASCII, 6)
+		c.Region = gen.ASCII
+		forceOversize = true
+	}
+	exemplarCase := false
+	if k := int(i) - len(c06OversizePatterns); k >= 0 && k < len(gen.Exemplars) {
+		exemplarCase = true
+		// fixed part of every run: every strategy exemplar itself (not a mutant), with the adversarial families below
+		c.Pattern = gen.Exemplars[k]
+		if re1, ok := gen.Valid(c.Pattern); ok {
+			c.Haystacks = gen.Haystacks(gen.Rng("C06e", i), re1, gen.ASCII, 6)
+			c.Region = gen.ASCII
+		}
+	}
 	if _, err := regexp.Compile(c.Pattern); err != nil {
 		return
 	}
 	re, err := coregex.Compile(c.Pattern)
 	if err != nil {
 		return
+	}
+	if i%2 == 1 {
+		// every second case runs under a 2-state DFA cache: the lazy DFA gives up almost at once and the
+		// NFA fallback paths carry the load
+		cfg := meta.DefaultConfig()
+		cfg.MaxDFAStates = 2
+		if r2, err := coregex.CompileWithConfig(c.Pattern, cfg); err == nil {
+			re = r2
+			w.Count("event:tiny-dfa-cache-config", 1)
+		}
 	}
 	caseStats(w, &c)
 	r := gen.Rng("C06", i)
@@ -108,10 +141,40 @@ func runC06(w *W, i uint64) {
 		}
 	}
 	hs = append(hs, long, gen.Haystacks(r, re0, gen.UTF8, 1)[0])
+	// adversarial families of C05 (many false candidates, near matches): they drive the anti-quadratic and
+	// cache-full FALLBACK paths, which are the ones that reach engine-level shared simulators
+	advLen := min(longLen, 700)
+	for _, fam := range []string{"near-match", "literal-repeated", "sample-repeated", "sample-per-line", "filler-literal"} {
+		hs = append(hs, c05Hay(fam, r, re0, gen.ASCII)(advLen))
+	}
 	var calls []c06call
-	for k := 0; k < 12; k++ {
-		a := apis[r.IntN(len(apis))]
-		calls = append(calls, c06call{a.name, a.f, hs[r.IntN(len(hs))]})
+	// beyond the bounded backtracker's capacity (states x length > 32M entries) the engine-level PikeVM or the
+	// bidirectional DFA take over: one such haystack for every 12th backtracker-strategy case (costly under -race)
+	if n0, err := nfa.NewDefaultCompiler().Compile(c.Pattern); err == nil && (forceOversize || i%12 == 5) && strategyOf(c.Pattern) == "UseBoundedBacktracker" {
+		limit := (32<<20)/n0.States() + 64
+		if limit <= 400_000 {
+			big := c05Hay("random-walk", r, re0, gen.ASCII)(limit)
+			for _, a := range apis[:4] {
+				calls = append(calls, c06call{a.name + "(oversize)", a.f, big})
+			}
+			w.Count("event:oversize-haystack-for-backtracker", 1)
+		}
+	}
+	if exemplarCase {
+		// systematic: every haystack of the pool with one API of each dispatch table (boolean, first match,
+		// captures, enumeration): the per-strategy code of the four tables is separate, and so are their fallbacks
+		groups := [][]int{{0, 1}, {2, 3, 13}, {4}, {5, 6, 7, 8, 9, 10, 11, 12}}
+		for _, h := range hs {
+			for _, g := range groups {
+				a := apis[g[r.IntN(len(g))]]
+				calls = append(calls, c06call{a.name, a.f, h})
+			}
+		}
+	} else {
+		for k := 0; k < 12; k++ {
+			a := apis[r.IntN(len(apis))]
+			calls = append(calls, c06call{a.name, a.f, hs[r.IntN(len(hs))]})
+		}
 	}
 	// sequential specification
 	want := make([]string, len(calls))
@@ -124,16 +187,28 @@ func runC06(w *W, i uint64) {
 		return
 	}
 	sizeBefore := fileSize(logPath)
-	var inflight [16]atomic.Int32 // per API index (hashed) in-flight counters
+	var inflight [64]atomic.Int32 // per API index (hashed) in-flight counters
 	overlaps := map[string]bool{}
 	var omu sync.Mutex
 	evals := 0
-	for _, G := range []int{2, 8, 32} {
+	Gs := []int{2, 8, 32}
+	if exemplarCase {
+		Gs = []int{4, 16}
+	}
+	if forceOversize || (len(calls) > 12 && !exemplarCase) {
+		Gs = []int{2, 4, 6} // oversize haystacks: seconds per call under -race
+	}
+	for _, G := range Gs {
 		var wg sync.WaitGroup
 		start := make(chan struct{})
 		var mism sync.Map
 		for g := 0; g < G; g++ {
 			order := r.Perm(len(calls))
+			if forceOversize || (len(calls) > 12 && !exemplarCase) {
+				// the oversize calls come first in every goroutine: all of them enter the slow fallback path
+				// together right after the barrier (calls[0:4] are the oversize ones)
+				sort.SliceStable(order, func(a, b int) bool { return order[a] < 4 && order[b] >= 4 })
+			}
 			wg.Add(1)
 			go func(g int, order []int) {
 				defer wg.Done()
@@ -190,7 +265,7 @@ func runC06(w *W, i uint64) {
 			w.Fail(Failure{Idx: i, Sub: "race", API: "RACE", Got: k, Want: "no data race", Pattern: c.Pattern, Strategy: strategyOf(c.Pattern), Note: clip(keys[k], 1800)})
 		}
 	}
-	w.Sample(map[string]any{"i": c.Index, "pattern": c.Pattern, "calls": len(calls), "goroutine_counts": []int{2, 8, 32}, "api_overlaps_observed": len(overlaps)})
+	w.Sample(map[string]any{"i": c.Index, "pattern": c.Pattern, "calls": len(calls), "goroutine_counts": Gs, "api_overlaps_observed": len(overlaps)})
 }
 
 func fileSize(p string) int64 {
